@@ -12,10 +12,93 @@ import (
 )
 
 type hstep struct {
-	op  byte   // G: (togo r)   P: r passed to a Go method   M: a Go method called ON r   S: (hset r key v)
-	rec *rnode // the record the step acts on
-	key string
-	v   *val
+	op byte // G: (togo r)   P: r passed to a Go method   M: a Go method called ON r   S: (hset r key v)
+	//            E: a Go method on r returns a pointer its Go object owns (Me / Get<Field>): a NEW record
+	rec    *rnode // the record the step acts on
+	key    string
+	v      *val
+	path   []int  // E: [] = the receiver, [i] = the struct pointer in field i
+	method string // E
+	newRec *rnode // E: placeholder for the returned record (id, type name)
+}
+
+type retMethod struct {
+	name string
+	path []int
+	ret  *sinfo
+}
+
+// returnMethods: methods Me() *S and Get<Field>() *F of a registered type, found by reflection
+func (rn *runner) returnMethods(s *sinfo) []retMethod {
+	var out []retMethod
+	pt := reflect.PtrTo(s.typ)
+	if m, ok := pt.MethodByName("Me"); ok && m.Type.NumIn() == 1 && m.Type.NumOut() == 1 && m.Type.Out(0) == pt {
+		out = append(out, retMethod{"Me", nil, s})
+	}
+	for i, f := range s.fields {
+		if m, ok := pt.MethodByName("Get" + f.name); ok && f.ty[0] == 'P' && m.Type.NumIn() == 1 && m.Type.NumOut() == 1 && m.Type.Out(0) == f.rt {
+			out = append(out, retMethod{"Get" + f.name, []int{i}, rn.u.structs[f.ty[2:]]})
+		}
+	}
+	return out
+}
+
+// genAlias: a record is converted, a Go method hands back a pointer its Go object owns (a new record), the script
+// changes and converts THAT record; the original, unchanged record's Go object must still hold the original values
+// (observed by a method called on the original record, which converts nothing because an object is attached).
+func (rn *runner) genAlias(g *gen, s *sinfo) (*rnode, []hstep) {
+	root := g.record(s, "top", 0)
+	// every struct pointer a Get method returns must be set
+	for _, rm := range rn.returnMethods(s) {
+		if len(rm.path) == 1 {
+			d := s.dets[0]
+			for _, x := range s.dets {
+				if len(x.path) == 1 && x.path[0] == rm.path[0] {
+					d = x
+				}
+			}
+			have := false
+			for i, k := range root.keys {
+				if k == d.key {
+					have = root.vals[i].k == 'R'
+					if !have {
+						root.vals[i] = &val{k: 'R', rec: g.record(rm.ret, d.ty, 1)}
+						have = true
+					}
+				}
+			}
+			if !have {
+				root.keys = append(root.keys, d.key)
+				root.vals = append(root.vals, &val{k: 'R', rec: g.record(rm.ret, d.ty, 1)})
+			}
+		}
+	}
+	initial := cloneNode(root, map[*rnode]*rnode{})
+	steps := []hstep{{op: []byte{'G', 'M'}[g.r.Intn(2)], rec: root}}
+	rms := rn.returnMethods(s)
+	for round := 1 + g.r.Intn(2); round > 0; round-- {
+		rm := rms[g.r.Intn(len(rms))]
+		nr := &rnode{id: g.nextID, tn: rm.ret.reg}
+		g.nextID += 64 // the returned tree's records are numbered from nr.id on
+		steps = append(steps, hstep{op: 'E', rec: root, path: rm.path, method: rm.name, newRec: nr})
+		var ds []det
+		for _, d := range rm.ret.dets {
+			if !d.emb && !strings.Contains(d.ty, "?") && strings.ContainsAny(d.ty[:1], "ijfsby") {
+				ds = append(ds, d)
+			}
+		}
+		for k := 1 + g.r.Intn(2); k > 0 && len(ds) > 0; k-- {
+			d := ds[g.r.Intn(len(ds))]
+			steps = append(steps, hstep{op: 'S', rec: nr, key: d.key, v: g.value(d.ty, g.maxD)})
+		}
+		op := byte('G')
+		if _, ok := rn.see[rm.ret.goName]; ok && g.r.Intn(4) == 0 {
+			op = 'P'
+		}
+		steps = append(steps, hstep{op: op, rec: nr})
+		steps = append(steps, hstep{op: 'M', rec: root})
+	}
+	return initial, steps
 }
 
 func typedNodes(root *rnode) []*rnode {
@@ -245,6 +328,23 @@ func (rn *runner) runHistory(initial *rnode, steps []hstep) (input string, obs s
 					outs = append(outs, "?notstring")
 				}
 			}
+		case 'E':
+			fmt.Fprintf(&in, " E %d %d", st.rec.id, len(st.path))
+			for _, p := range st.path {
+				fmt.Fprintf(&in, " %d", p)
+			}
+			fmt.Fprintf(&in, " %d", st.newRec.id)
+			if obs != "" {
+				continue
+			}
+			nn := fmt.Sprintf("%s%d", prefix, st.newRec.id)
+			defined[st.newRec.id] = true
+			r := lib.Eval(rn.env, fmt.Sprintf("(def %s (first (_method %s %s:)))", nn, name, st.method), 2000000)
+			if r.Class != lib.OutValue {
+				outs = append(outs, "ERR")
+				continue
+			}
+			outs = append(outs, "OK "+renderSexp(rn.env, r.Val, 0))
 		case 'S':
 			fmt.Fprintf(&in, " S %d %s", st.rec.id, st.key)
 			serV(st.v, seenSer, &in)
